@@ -338,4 +338,24 @@ def float_case(rng, case, lo=-2.0, hi=2.0):
 
 
 def episodes(A, ep):
-    return {int(l): Xe for l, Xe in pykoop.split_episodes(np.asarray(A, dtype=float), episode_feature=ep)}
+    return {int(l): Xe for l, Xe in ref_split(A, ep)}
+
+
+# ----------------------------------------------------------------------------- independent reference utilities
+# (oracles must not use the implementation's own split/combine as ground truth)
+
+def ref_split(A, ep):
+    """[(label, rows-of-that-label-in-matrix-order-without-the-label-column)] in ascending label order"""
+    A = np.asarray(A, dtype=float)
+    if not ep:
+        return [(0, A)]
+    labels = sorted({int(v) for v in A[:, 0]})
+    return [(l, A[A[:, 0] == l][:, 1:]) for l in labels]
+
+
+def ref_combine(blocks, ep):
+    out = []
+    for l, B in blocks:
+        B = np.asarray(B, dtype=float)
+        out.append(np.hstack((l * np.ones((B.shape[0], 1)), B)) if ep else B)
+    return np.vstack(out)
